@@ -55,10 +55,13 @@ structure Sch where
   wtab : List ((Con × Decl × TyId) × List Decl)     -- declarations `update_elements(XPathElement(d, T))` selects
   base : List (Con × Decl)                          -- `selected_by` / `identity.elements` after `build()`
   pure : Nat → Nat                                  -- the memoised methods, as one pure function of the key
+  declTy : List (Decl × TyId) := []                 -- the declared type of every element declaration
   nsBase : List Nat := []                           -- namespaces in `maps.namespaces` after `build()`
   loadable : List Nat := []                         -- namespaces `loader.get_locations(ns)` has a location for
 
 def Sch.isComplex (sch : Sch) (t : TyId) : Bool := sch.complex.contains t
+
+def Sch.declType (sch : Sch) (d : Decl) : TyId := (sch.declTy.lookup d).getD 0
 
 def Sch.widen (sch : Sch) (c : Con) (d : Decl) (t : TyId) : List Decl :=
   (sch.wtab.filter fun e => e.1 == (c, d, t)).flatMap (·.2)
@@ -80,9 +83,12 @@ structure Res where
   /-- call-local although it is kept here: the components this call runs on were replaced by a rebuild,
       what it writes on them is lost (reset at the start of every call) -/
   stale : Bool := false
+  /-- `identity.elements` as a map: (constraint, declaration) ↦ the type the stored field selectors were built
+      for (`FieldValueSelector(f, e)`, identities.py:225: `e` is the declaration itself) -/
+  cache : List ((Con × Decl) × TyId) := []
   deriving Repr, Inhabited, DecidableEq
 
-def Res.init : Res := ⟨[], [], [], [], [], [], false⟩
+def Res.init : Res := { xsi := [], elems := [], sel := [], memo := [], scratch := [] }
 
 /-- `context.identities`: (constraint, `counter.enabled`) in insertion order -/
 abbrev Ctx := List (Con × Bool)
@@ -107,7 +113,7 @@ def Ctx.leave (ctx : Ctx) (ids : List (Con × Option Con)) : Ctx := ids.foldl Ct
 
 /-- one write on the schema object -/
 inductive Write where
-  | elem (c : Con) (d : Decl)                -- `if e not in self.elements: self.elements[e] = [...]`
+  | elem (c : Con) (d : Decl) (t : TyId)     -- `if e not in self.elements: self.elements[e] = [FieldValueSelector(f, e) …]`
   | sel (c : Con) (d : Decl)                 -- `e.selected_by.add(self)`
   | pair (d : Decl) (t : TyId) (c : Con)     -- `self.xsi_types.add((xsd_type, counter.identity))`
   | type (d : Decl) (t : TyId)               -- `if xsd_type not in self.xsi_types: self.xsi_types.add(xsd_type)`
@@ -116,7 +122,8 @@ inductive Write where
 def ins {α} [BEq α] (x : α) (l : List α) : List α := if l.contains x then l else x :: l
 
 def Res.apply (r : Res) : Write → Res
-  | .elem c d => { r with elems := ins (c, d) r.elems }
+  | .elem c d t => { r with elems := ins (c, d) r.elems,
+                            cache := if (r.cache.lookup (c, d)).isSome then r.cache else ((c, d), t) :: r.cache }
   | .sel c d => { r with sel := ins (c, d) r.sel }
   | .pair d t c => { r with xsi := ins (.pair d t c) r.xsi }
   | .type d t => { r with xsi := ins (.type d t) r.xsi }
@@ -125,7 +132,7 @@ def applyWrites (r : Res) (ws : List Write) : Res := ws.foldl Res.apply r
 
 /-- identities.py:219-226: the writes of `update_elements(XPathElement(d, t))` on constraint `c` -/
 def updateWrites (sch : Sch) (c : Con) (d : Decl) (t : TyId) : List Write :=
-  (sch.widen c d t).flatMap fun d' => [.elem c d', .sel c d']
+  (sch.widen c d t).flatMap fun d' => [.elem c d' (sch.declType d'), .sel c d']
 
 /-- elements.py:684-694: the writes of the loop over the counters of the context, in order, from state `r` -/
 def xsiLoop (sch : Sch) (d : Decl) (t : TyId) : Res → Ctx → List Write
@@ -170,6 +177,9 @@ inductive Step where
   | xsiType (d : Decl) (t : TyId) (budget : Option Nat)
   /-- the element of declaration `d` is finished: field collection -/
   | collect (d : Decl)
+  /-- the element of declaration `d`, validated with type `t` (its declared type or an xsi:type), is picked by the
+      selectors of the open scopes: which field selectors extract its key values (elements.py:901-904, 949-953) -/
+  | fields (d : Decl) (t : TyId)
   /-- the element carrying `ids` ends (`refer` of keyrefs given for eager runs) -/
   | leave (ids : List (Con × Option Con))
   /-- lazy runs rebuild the counters outside `raw_decode` (schemas.py:1336-1362): the counters as found -/
@@ -197,6 +207,8 @@ inductive Obs where
   | ns (avail : Bool) (rebuilt : Bool)
   /-- a lookup without loading: is the namespace in the maps -/
   | nsSeen (b : Bool)
+  /-- for every collecting constraint, the type the field selectors in use were built for -/
+  | typing (l : List (Con × TyId))
   deriving Repr, Inhabited, DecidableEq
 
 def isSel (sch : Sch) (r : Res) (c : Con) (d : Decl) : Bool :=
@@ -204,6 +216,18 @@ def isSel (sch : Sch) (r : Res) (c : Con) (d : Decl) : Bool :=
 
 def gate (sch : Sch) (m : Mode) (r : Res) (ctx : Ctx) (d : Decl) : List Con :=
   (ctx.filter fun p => p.2 && (match m with | .ungated => true | .laxAttrNoLoad => true | _ => isSel sch r p.1 d)).map (·.1)
+
+/-- `identity.elements.get(declaration)`: the typing of the stored selectors (entries made by `build()` are typed
+    by the declaration) -/
+def cachedTy (sch : Sch) (r : Res) (c : Con) (d : Decl) : Option TyId :=
+  match r.cache.lookup (c, d) with
+  | some t => some t
+  | none => if sch.base.contains (c, d) then some (sch.declType d) else none
+
+/-- elements.py:901-904 + 949-953: an element validated with its declared type uses the stored selectors of its
+    declaration when there are some; a retyped copy is never a key of the cache: selectors are built for it -/
+def typingOf (sch : Sch) (r : Res) (ctx : Ctx) (d : Decl) (t : TyId) : List (Con × TyId) :=
+  (ctx.filter (·.2)).map fun p => (p.1, if t == sch.declType d then (cachedTy sch r p.1 d).getD t else t)
 
 def budgeted (ws : List Write) : Option Nat → List Write
   | none => ws
@@ -220,7 +244,7 @@ def isLoaded (sch : Sch) (r : Res) (n : Nat) : Bool := sch.nsBase.contains n || 
 /-- loaders.py:350-356 + xsd_globals.py:505-578: the namespace is registered and every component re-created:
     what was recorded on the old components is gone, the caches are cleared, the rest of the call is stale -/
 def rebuild (r : Res) (n : Nat) : Res :=
-  { xsi := [], elems := [], sel := [], memo := [], scratch := [], loaded := n :: r.loaded, stale := true }
+  { xsi := [], elems := [], sel := [], memo := [], scratch := [], loaded := n :: r.loaded, stale := true, cache := [] }
 
 /-- wildcards.py:533-545 / 709-735 -/
 def wildStep (sch : Sch) (m : Mode) (r : Res) (attr : Bool) (pc : PC) (n : Nat) : Res × Option Obs :=
@@ -242,6 +266,7 @@ def step (sch : Sch) (m : Mode) (s : Res × Ctx) : Step → (Res × Ctx) × Opti
   | .wild a pc n => (((wildStep sch m s.1 a pc n).1, s.2), (wildStep sch m s.1 a pc n).2)
   | .nsRead n => (({ s.1 with stale := false }, s.2), some (.nsSeen (isLoaded sch s.1 n)))
   | .collect d => (s, some (.collected s.2 (gate sch m s.1 s.2 d)))
+  | .fields d t => (s, some (.typing (typingOf sch s.1 s.2 d t)))
   | .leave ids => ((s.1, s.2.leave ids), none)
   | .setCtx ctx => ((s.1, ctx), none)
   | .memoCall k =>
